@@ -279,3 +279,105 @@ theorem trace_krausOn_single (dims : List Nat) (q : Nat) (hq : q < dims.length) 
 
 end Spec
 end PW
+
+namespace PW
+namespace Spec
+variable {R : Type} [CommRing R] [StarRing R]
+
+omit [StarRing R] in
+theorem reduceTo_list_sum (dims K : List Nat) (fs : List (Tensor R)) (rc : List Nat) :
+    reduceTo dims K (fun x => (fs.map fun f => f x).sum) rc = (fs.map fun f => reduceTo dims K f rc).sum := by
+  induction fs with
+  | nil => simpa using reduceTo_zero dims K rc
+  | cons f fs ih =>
+    simp only [List.map_cons, List.sum_cons]
+    rw [reduceTo_add, ih]
+
+/-- **the weights of a complete measurement add up to the trace — any number of subsystems**:
+`Σ_m Tr((M_m ⊗ 1) ρ (M_m ⊗ 1)†) = Tr ρ` for operators on position `q` with `Σ_m M_m† M_m = 1` -/
+theorem povm_weights_sum_single (dims : List Nat) (q : Nat) (hq : q < dims.length) (Ms : List (Tensor R))
+    (hM : ∀ j < dimOf2 dims q, ∀ k < dimOf2 dims q,
+      (Ms.map fun U => ∑ i ∈ Finset.range (dimOf2 dims q), U [i, j] * conj (U [i, k])).sum = if j = k then 1 else 0)
+    (ρ : Tensor R) : (Ms.map fun M => trace dims (applyOn dims [q] M ρ)).sum = trace dims ρ := by
+  rw [← trace_krausOn_single dims q hq Ms hM ρ]
+  simp only [trace_eq_reduceTo_nil]
+  unfold krausOn
+  have h := reduceTo_list_sum dims [] (Ms.map fun M => applyOn dims [q] M ρ) []
+  simp only [List.map_map, Function.comp_def] at h
+  exact h.symm
+
+end Spec
+end PW
+
+namespace PW
+namespace Spec
+variable {R : Type} [CommRing R] [StarRing R]
+
+omit [StarRing R] in
+/-- the partial trace reads its argument only at well-formed indices -/
+theorem reduceTo_congr (dims K : List Nat) (σ τ : Tensor R) (rc : List Nat)
+    (h : ∀ r c : List Nat, r.length = dims.length → c.length = dims.length → σ (r ++ c) = τ (r ++ c)) :
+    reduceTo dims K σ rc = reduceTo dims K τ rc := by
+  unfold reduceTo
+  apply sumLabels_congr
+  intro e
+  apply h <;> simp [scatter]
+
+theorem projector_gram (d o : Nat) (ho : o < d) (j k : Nat) :
+    ∑ i ∈ Finset.range d, (projector (R := R) o) [i, j] * conj ((projector (R := R) o) [i, k])
+      = if j = o ∧ k = o then 1 else 0 := by
+  rw [Finset.sum_eq_single o]
+  · unfold projector
+    by_cases hj : j = o <;> by_cases hk : k = o <;> simp [hj, hk, conj_eq_star]
+  · intro i _ hi
+    unfold projector
+    have : ¬ ([i, j] = [o, o]) := by simp [hi]
+    simp [this]
+  · intro h; exact absurd (Finset.mem_range.mpr ho) h
+
+theorem projectors_complete (d : Nat) (j k : Nat) (hj : j < d) :
+    (((List.range d).map fun o => projector (R := R) o).map fun U =>
+        ∑ i ∈ Finset.range d, U [i, j] * conj (U [i, k])).sum = if j = k then 1 else 0 := by
+  rw [List.map_map]
+  have : ((List.range d).map ((fun U : Tensor R => ∑ i ∈ Finset.range d, U [i, j] * conj (U [i, k])) ∘ fun o => projector (R := R) o))
+      = (List.range d).map fun o => if j = o ∧ k = o then (1 : R) else 0 := by
+    apply List.map_congr_left
+    intro o ho
+    exact projector_gram d o (List.mem_range.mp ho) j k
+  rw [this, list_range_sum_finset]
+  by_cases hjk : j = k
+  · subst hjk
+    rw [Finset.sum_eq_single j]
+    · simp
+    · intro o _ ho; simp [Ne.symm ho]
+    · intro h; exact absurd (Finset.mem_range.mpr hj) h
+  · rw [if_neg hjk]
+    apply Finset.sum_eq_zero
+    intro o _
+    rw [if_neg]
+    rintro ⟨rfl, rfl⟩; exact hjk rfl
+
+/-- **measuring one subsystem is invisible in all the others — any number of subsystems**: summed over the
+outcomes, the collapsed (Born-weighted) states have the reduced state on `K ∌ q` that `ρ` had -/
+theorem reduceTo_measurement (dims K : List Nat) (q : Nat) (hq : q < dims.length) (hqK : q ∉ K)
+    (ρ : Tensor R) (rc : List Nat) :
+    ((List.range (dims.getD q 0)).map fun o => reduceTo dims K (projectOn dims q o ρ) rc).sum
+      = reduceTo dims K ρ rc := by
+  have hd : dimOf2 dims q = dims.getD q 0 := by unfold dimOf2; rw [if_pos hq]
+  have hK := reduceTo_krausOn_single dims K q hq hqK ((List.range (dims.getD q 0)).map fun o => projector (R := R) o)
+    (by intro j hj k _; rw [hd] at hj ⊢; exact projectors_complete _ j k hj) ρ rc
+  rw [← hK]
+  unfold krausOn
+  have h := reduceTo_list_sum dims K (((List.range (dims.getD q 0)).map fun o => projector (R := R) o).map
+    fun M => applyOn dims [q] M ρ) rc
+  simp only [List.map_map, Function.comp_def] at h ⊢
+  rw [h]
+  congr 1
+  apply List.map_congr_left
+  intro o ho
+  apply reduceTo_congr
+  intro r c hr hc
+  exact (applyOn_projector dims q o hq (List.mem_range.mp ho) ρ r c hr hc).symm
+
+end Spec
+end PW
